@@ -130,3 +130,96 @@ EXTRA_SEARCH = {
     'C13': dict(search=[['card-check', 'c13']]),
     'C14': dict(search=[['card-check', 'c14']]),
 }
+
+
+# ---------------------------------------------------------------------------------------------------
+# C05 / C09 / C10: range notation (Verus for token values / ranges / iterator, Kani for strings)
+from . import p_kani
+
+TOKEN_ALLOWED = [r'^external_body pub fn into_iter']
+TOK_MEANING = ['tok_meaning_pockets', 'tok_meaning_rank_pairs', 'tok_meaning_card_pair', 'tok_weight_carried', 'tok_ok_reachable']
+TOK_TOTAL_Q = ['tok_total_parse_6', 'tok_total_parse_6_multibyte', 'tok_total_parse_9', 'tok_total_parse_9_multibyte', 'tok_ok_reachable']
+TOK_TOTAL_T = TOK_TOTAL_Q + ['tok_total_parse_12', 'tok_total_parse_12_multibyte']
+
+
+def _k_token(name, names_q, names_t=None, bounded=None):
+    def part(tier):
+        names = names_t if (tier == 'thorough' and names_t) else names_q
+        def runner():
+            r = p_kani.run_token(names, 1500 if tier == 'quick' else 7200)
+            r['bounded'] = bounded or []
+            return r
+        return multi.kani_part(name, runner)
+    return part
+
+
+def _k_card(name, names, bounded=None):
+    def part(tier):
+        def runner():
+            r = p_kani.run_card_names(names, 900)
+            r['bounded'] = bounded or []
+            return r
+        return multi.kani_part(name, runner)
+    return part
+
+
+STR_BOUND_Q = 'strings: every ASCII string of <= 9 bytes, and every such string with the two-byte character "é" at any offset (quick); <= 12 bytes (thorough). Longer inputs differ only in the digit run of the weight.'
+TOKEN_ASSUME = [
+    'Kani harnesses run on a scratch copy in which every `Regex::new(r"...")` call site of the CURRENT source is replaced by a DFA generated from that literal (extract/dfa.py; cross-checked against Python\'s re on ~778k strings per run) -- regex::Regex itself is not verified',
+    'parse_probability is stubbed by a deterministic abstraction of f32::from_str on the weight grammar [01](\\.[0-9]+)? that preserves the comparison with 1.0 and membership in [0,1] (its source is pinned by nothing: it is 7 lines; its own slicing is after starts_with(":"))',
+    'strings are built with from_utf8_unchecked from bytes that are valid UTF-8 by construction (std\'s UTF-8 validation of symbolic bytes is intractable for CBMC); arbitrary multi-byte content is represented by one two-byte character at every offset',
+    'token_wf in the Kani harness and in the Verus unit are hand-written mirrors of each other',
+    DERIVE,
+]
+
+MULTI['C05'] = dict(
+    parts=[_k_token('TOKEN-STR', TOK_MEANING), _v('token', TOKEN_ALLOWED)],
+    assumptions=TOKEN_ASSUME + [
+        'Verus (unit TOKEN): HandRangeToken::into_iter on a well-formed token returns exactly expand_combos(t) in order, each with the token\'s weight; RankPair::into_iter returns combos_seq(rp); lemma_combos_pocket/suited/ofsuit: combos_seq is the first-principles suit enumeration (6 / 4 / 12)',
+        'Kani: for all ranks / suits (symbolic) each of the 7 token shapes without weight parses to the value it denotes with weight 1; \':0\' and \':1\' are carried, \':1.5\' is rejected',
+        'NOT decided: the list level of HandRange::from_str (strip spaces, split on commas, later token overwrites, empty string) -- String::replace/split and HashMap are outside both verifiers; only the failing-input search exercises it',
+    ],
+    bounded=['weights other than none / :0 / :1 / :1.5 are covered only through the parse_probability abstraction'],
+    not_decided=['list level of HandRange::from_str'],
+    samples=[
+        {'obligation': 'HandRangeToken::into_iter postcondition', 'clause': 'token_wf(self) ==> res@.len() == expand_combos(self).len() && forall i. res@[i].0 == expand_combos(self)[i] && res@[i].1 == self.probability'},
+        {'harness': 'tok_meaning_rank_pairs', 'asserts': "from_str('HKs') == SingleRankPair(Suited(H,K)):1, 'HKs+' == BottomClosed(..), 'HKs-HEs' == DoubleClosed(.., E) for all H < K < E, s/o"},
+    ],
+    search=[['c05-search', '{seed}', '{n}']], search_n={'quick': 3000, 'thorough': 30000})
+
+MULTI['C09'] = dict(
+    parts=[_k_card('CARD-STR', ['c09_rank_suit_card_from_str_4', 'c09_cardpair_from_str_6'], [STR_BOUND_Q]),
+           _k_token('TOKEN-STR', TOK_TOTAL_Q, TOK_TOTAL_T, [STR_BOUND_Q]),
+           _v('token', TOKEN_ALLOWED), _v('range', RANGE_ALLOWED), _v('iter', ITER_ALLOWED)],
+    assumptions=TOKEN_ASSUME + [
+        'Kani (bounded strings): Rank/Suit/Card::from_str (<= 4 bytes), CardPair::from_str (<= 6 bytes), HandRangeToken::from_str (<= 9 / 12 bytes) return normally, and Ok(t) ==> token_wf(t)',
+        'Verus: under token_wf, HandRangeToken::into_iter has no panic path (RankRange slicing precondition, unwrap of high.next()); rank_pairs / orphan_card_pairs have none for any range; next() has none under wf() (C08)',
+        'NOT decided: HandRange::from_str\'s own replace/split lines, Display for HandRange / HandRangeToken (Formatter)',
+    ],
+    bounded=[STR_BOUND_Q],
+    not_decided=['HandRange::from_str list level', 'Display (formatting) of ranges and tokens'],
+    samples=[
+        {'harness': 'tok_total_parse_9_multibyte', 'asserts': 'for every ASCII string of <= 9 bytes with one "é" anywhere: from_str returns; Ok(t) ==> token_wf(t)'},
+        {'obligation': 'HandRangeToken::into_iter', 'clause': 'requires token_wf(self); all built-in obligations (slice ranges, unwrap) discharged'},
+    ],
+    kinds=r'overflow|precondition|kani harness',
+    search=[['parse-search', '{seed}', '{n}', 'c09']], search_n={'quick': 20000, 'thorough': 200000})
+
+MULTI['C10'] = dict(
+    parts=[_k_token('TOKEN-STR', TOK_TOTAL_Q, TOK_TOTAL_T, [STR_BOUND_Q]),
+           _k_card('F32', ['c10_f32_product_unit_interval']),
+           _v('token', TOKEN_ALLOWED), _v('iter', ITER_ALLOWED)],
+    assumptions=TOKEN_ASSUME + [
+        'Kani (bounded strings): Ok(t) ==> token_wf(t): weight in [0,1] (under the parse_probability abstraction: accepted tokens carry the parsed value, values above 1 are rejected), SingleCardPair has two different cards, spans ordered',
+        'Verus (unit TOKEN): every entry of the expansion carries the token\'s weight; lemma_token_distinct: every combo of expand_combos(t) has two different cards',
+        'Kani (complete, binary32): a, b in [0,1] ==> a*b in [0,1] and 1.0*a == a; Verus (unit ITER): a showdown\'s probability is the left fold of f32 products of the chosen weights (f32_mul uninterpreted there) -- the induction over the fold is on paper',
+        'Verus (unit ITER): lemma_legal_distinct: a yielded deal has 5+2n pairwise different cards',
+        'f32::from_str returns a non-negative finite value on the weight grammar (documented behaviour, not verified)',
+    ],
+    bounded=[STR_BOUND_Q],
+    not_decided=['HandRange::from_str list level'],
+    samples=[
+        {'harness': 'tok_total_parse_9', 'asserts': 'Ok(t) ==> 0 <= t.probability <= 1 && (SingleCardPair(p) ==> p[0] != p[1]) && ...'},
+        {'obligation': 'lemma_token_distinct', 'clause': 'token_wf(t) ==> forall i. expand_combos(t)[i].0 != expand_combos(t)[i].1'},
+    ],
+    search=[['parse-search', '{seed}', '{n}', 'c10']], search_n={'quick': 20000, 'thorough': 200000})
